@@ -79,14 +79,16 @@ Arrive(i) ==     \* a caller calls the batcher: look the key up, join or create 
             /\ cache' = Put(cache, k, f)
             /\ queue' = Append(queue, f)
             /\ cfut' = [cfut EXCEPT ![i] = f]
-    /\ cpc' = [cpc EXCEPT ![i] = "wait"]
+    \* (awaiting a future that is done already does not suspend: such a caller returns within its own task step,
+    \*  before the pending _forget callback of that future gets its turn: "late")
+    /\ cpc' = [cpc EXCEPT ![i] = IF KeyOf[i] \in DOMAIN cache /\ fut[cache[KeyOf[i]]].st # "pending" THEN "late" ELSE "wait"]
     /\ mon' = Emit([e |-> "Call", i |-> i, key |-> KeyOf[i], loop |-> "L1", tmo |-> -1])
     /\ UNCHANGED <<now, asm, ready, run, nb, ny, sem>>
 
 Answer(i) ==     \* the awaited (shielded) future is resolved: the caller returns / raises
-    /\ cpc[i] = "wait" /\ fut[cfut[i]].st \in {"val", "exc", "berr", "missing", "cancelled"}
-    \* _forget is the first done-callback of the future: it runs before any caller is woken
-    /\ ~(forgetAt[cfut[i]] # -1 /\ forgetAt[cfut[i]] <= now /\ RT = 0)
+    /\ cpc[i] \in {"wait", "late"} /\ fut[cfut[i]].st \in {"val", "exc", "berr", "missing", "cancelled"}
+    \* _forget is the first done-callback of the future: it runs before any *waiting* caller is woken
+    /\ cpc[i] = "late" \/ ~(forgetAt[cfut[i]] # -1 /\ forgetAt[cfut[i]] <= now /\ RT = 0)
     /\ cpc' = [cpc EXCEPT ![i] = "done"]
     /\ LET f == cfut[i]
            kind == CASE fut[f].st = "val" -> "val" [] fut[f].st = "exc" -> "exc"
@@ -232,7 +234,7 @@ BatchEnd(b) ==   \* the generator is exhausted: missing keys get ValueError; the
 Urgent == \/ queue # <<>> /\ Len(asm.items) < MaxB
           \/ asm.st = "collecting" /\ queue = <<>> /\ asm.deadline <= now
           \/ CanTake \/ \E j \in 1..Len(ready) : Blockable(j)
-          \/ \E i \in Calls : cpc[i] = "wait" /\ fut[cfut[i]].st # "pending"
+          \/ \E i \in Calls : cpc[i] \in {"wait", "late"} /\ fut[cfut[i]].st # "pending"
           \/ \E i \in Calls : cpc[i] = "cancelling"
           \/ \E f \in DOMAIN forgetAt : forgetAt[f] # -1 /\ forgetAt[f] <= now
 Horizon == MaxTime + 3 * (BT + RT + 2)
